@@ -5,6 +5,8 @@
 (*                                                                                              *)
 (* Events (one JSON object per line, numbered by the harness under its own mutex):               *)
 (*   reset   {cap}        a new semaphore / listener / server with this cap                      *)
+(*   restart {cap}        the server was restarted (new listener) with this cap, nobody connected; *)
+(*                        the ids of rz start at 1 again                                         *)
 (*   rz      {id,n}       logged BEFORE SetMaxCount / SetMaxConnection / reload is called        *)
 (*   rzdone  {id}         logged AFTER the harness saw the `done` channel of that call closed    *)
 (*   acc.inv {p}          logged BEFORE process p calls Accept / Acquire (client: before dial)   *)
@@ -42,6 +44,15 @@ TReset ==
     /\ initCap' = TLog[l].cap /\ req' = <<>> /\ applied' = {} /\ open' = 0
     /\ win' = <<>>
     /\ UNCHANGED <<dropped, starved, over>>
+
+(* the server was restarted with this cap (logged AFTER the restarting reload has been carried     *)
+(* out, nobody connected): a fresh cap history; an accept pending across the restart may be         *)
+(* justified by the new cap as well                                                                 *)
+TRestart ==
+    /\ IsEvent("restart")
+    /\ CRestart(TLog[l].cap)
+    /\ win' = [q \in DOMAIN win |-> win[q] \cup {TLog[l].cap}]
+    /\ UNCHANGED over
 
 TRz ==
     /\ IsEvent("rz") /\ TLog[l].id = Len(req) + 1
@@ -97,7 +108,7 @@ TStuck ==
     /\ starved' = (starved \/ TLog[l].openhi < MinOf(CapsInEffect))
     /\ UNCHANGED <<initCap, req, applied, open, dropped, win, over>>
 
-TNext == TReset \/ TRz \/ TRzDone \/ TAccInv \/ TAcc \/ TAccOver \/ TAccErr \/ TClose \/ TDrop \/ TStuck
+TNext == TReset \/ TRestart \/ TRz \/ TRzDone \/ TAccInv \/ TAcc \/ TAccOver \/ TAccErr \/ TClose \/ TDrop \/ TStuck
 
 TInit ==
     /\ l = 1 /\ win = <<>> /\ over = FALSE
